@@ -37,7 +37,8 @@ PROPERTIES = {
              ['C01-KEY', 'C01-APPEND', 'C01-MERGE', 'C01-RESERVE', 'C01-COMPOSE', 'C05-VISIT', 'C05-NOSKIP', 'C05-SOURCE', 'S2', 'S4', 'S5', 'S1', 'C15-CLAMP', 'C15-CHUNKCAP'],
              STATIC + 'Decided: merge keys / positional slots are the source positions delivered by the pull that produced the value; '
              'per-thread buffers are append-only; def-use facts of the k-way merge; capacity reservation dominates the positional path; '
-             'stage order in composed closures; all per-thread results reach the merge; ordered terminals never reach an unordered kernel. '
+             'stage order in composed closures; all per-thread results reach the merge; ordered terminals never reach an unordered kernel; '
+             'the parameter resolution cannot panic and bounds every chunk size by the known input length (no position wrap-around). '
              'Not decided: functional correctness of the merge for every key multiset, equality over all inputs.'),
     'C02': P('find/first/any/all answer with the first match in source order',
              ['C02-MINIDX', 'C02-IDX', 'C02-FIRST', 'C02-ANYALL', 'C01-COMPOSE', 'S2', 'S4', 'S5', 'C15-CLAMP', 'C15-CHUNKCAP'],
@@ -56,11 +57,13 @@ PROPERTIES = {
              ['C05-AFFINE', 'C05-ONCE', 'C01-COMPOSE', 'C05-VISIT', 'C05-SOURCE', 'C05-NOSKIP', 'C05-DRIVE'],
              STATIC + 'Decided: stage closures take elements by value; by-reference closures are called at most once per element between '
              'pulls; downstream stages run only on survivors; must-visit tasks observe exhaustion and drop no pulled element; by-value '
-             'iterators enter only through the serialising wrapper. Not decided: ConIterOfIter really serialises next().'),
+             'iterators enter only through the serialising wrapper, built from the whole collection; skip_to_end is raised only by find tasks holding '
+             'a match; a chain carrying a user closure is never consumed by len/size_hint/is_empty. Not decided: ConIterOfIter really serialises next().'),
     'C06': P('collect_into appends to, and never disturbs, existing contents',
              ['C06-RECV', 'C06-MUT', 'C06-OFFSET', 'C06-GROW', 'C01-RESERVE'],
              STATIC + 'Decided: a by-value target is never dropped on a normal path and the result depends on it; &mut targets only receive '
-             'appends; the write offset is the target length taken before the run. Not decided: dependency conversions keep contents.'),
+             'appends; the write offset is the target length taken before the run; the reservation before every positional conversion covers existing '
+             '+ incoming elements; nothing is appended onto a FixedVec directly. Not decided: dependency conversions keep contents.'),
     'C07': P('collect_x returns a permutation of the sequential result',
              ['C07-FRAG', 'C07-TASK', 'C07-SEQ', 'C01-APPEND', 'C05-VISIT', 'C05-NOSKIP', 'S1', 'S2', 'S4', 'S5', 'C15-CLAMP', 'C15-CHUNKCAP'],
              STATIC + 'Decided: every per-thread fragment returned by the runner is appended unmodified; tasks only append; sequential mode '
@@ -73,7 +76,8 @@ PROPERTIES = {
     'C09': P('sequential mode is identical to std iterator execution',
              ['S1', 'S6', 'C09-SEQSHAPE', 'C09-EMPTY', 'S3', 'S7', 'C12-STORE', 'C09-TIES', 'C12-NOSET'],
              STATIC + 'Decided: num_threads(1) dispatches to the sequential kernel on every route; sequential kernels are in-order, lazy / '
-             'left-fold std chains rooted at into_seq_iter with closures in declaration order and no chunk size. '
+             'left-fold std chains rooted at into_seq_iter with closures in declaration order and no chunk size; min*/max* wrappers break ties '
+             'like std (first minimum, last maximum); no stage is re-parameterised by the library. '
              'Not decided: into_seq_iter order (T3).'),
     'C10': P('short-circuit terminals stop consuming input once a match is known',
              ['C10-SIGNAL', 'C10-NOPULL', 'C10-LAZYSEQ', 'C10-STOPSPAWN', 'C10-CHUNKDEP', 'C02-FIRST', 'S4'],
@@ -88,7 +92,8 @@ PROPERTIES = {
     'C12': P('parameters propagate unchanged through every transformation',
              ['C12-BASE', 'S7', 'C12-FROM', 'S3', 'C12-STORE', 'C12-OBSERVE', 'S6', 'C12-NOSET'],
              STATIC + 'Decided completely (modulo T1/T4) by structural induction over the API: defaults, setters, From<usize>, every '
-             'transformation forwards self.params, constructors store and destructors return it, params() observes it.',
+             'transformation (trait or inherent) forwards self.params, constructors store and destructors return it, params() observes it, '
+             'and the library itself never calls a setter.',
              assumes=('T1', 'T4')),
     'C13': P('owned elements are dropped exactly once on all non-panicking paths',
              ['C13-INVENTORY', 'C13-PAIR', 'C13-UNWRAP', 'C13-LEAK', 'C06-RECV', 'C05-VISIT'],
@@ -100,12 +105,14 @@ PROPERTIES = {
              STATIC + 'Decided: no destructor of a partially written positional buffer is reachable from the runner call\'s unwind edge '
              '(drop-flag aware); no user code can run inside the double-drop window of the merge; join results are unwrapped, nothing '
              'catches or detaches a panic; no loop on the path of a terminal call waits only on state that other threads advance '
-             '(a dead worker advances nothing) and no blocking primitive is called. Not decided: thread::scope re-raises (T2).'),
+             '(a dead worker advances nothing) and no blocking primitive is called; no chain closure is moved into the serialised source of a '
+             'concurrent iterator. Not decided: thread::scope re-raises (T2).'),
     'C15': P('parameters never change a result or make a computation fail',
              ['C15-OBLIG', 'C15-CLAMP', 'C15-ALLOC', 'C15-CHUNKCAP', 'C15-STACK'],
              STATIC + 'Decided: every panic site (overflow/div-by-zero assertion, expect, assert) of the parameter-resolution slice that '
              'depends on the configuration is discharged by a dominating guard, a constructor invariant, an arithmetic lemma or a stated '
-             'assumption. Not decided: equality of results across configurations (conjunction of C01-C07); panics inside dependencies.',
+             'assumption; every size handed to an allocating API and, for sources of known length, every resolved chunk size is bounded by the '
+             'data or the thread budget; the library fixes no stack size for its workers. Not decided: equality of results across configurations (conjunction of C01-C07); panics inside dependencies.',
              extra=['A1 remaining_len reported by the concurrent iterator <= its initial length (T3)',
                     'A2 available_parallelism() <= 2^20 and collection lengths <= isize::MAX']),
     'C16': P('computations are lazy: nothing runs before the terminal call',
